@@ -17,6 +17,7 @@ type Clause struct {
 	Text string
 	Expr ast.Expr
 	NoAssume bool // proved but not assumed afterwards ("check")
+	Index string // let name[Index] = expr : ghost sequence defined pointwise (a definitional extension)
 }
 
 type GhostVar struct {
@@ -246,7 +247,7 @@ func parseSpecExpr(text string) (ast.Expr, error) {
 	return e, nil
 }
 
-var letRe = regexp.MustCompile(`^let\s+([A-Za-z_][A-Za-z0-9_]*)\s*=\s*(.*)$`)
+var letRe = regexp.MustCompile(`^let\s+([A-Za-z_][A-Za-z0-9_]*)(?:\[([A-Za-z_][A-Za-z0-9_]*)\])?\s*=\s*(.*)$`)
 var clauseRe = regexp.MustCompile(`^(requires|ensures|modifies|invariant|assert|check|lemma)(\[[A-Za-z0-9_\-\.]+\])?\s+(.*)$`)
 
 func parseGhostList(s string) ([]GhostVar, error) {
@@ -487,14 +488,14 @@ func (cs *ContractSet) loadContractFile(path, pkgPath string) error {
 					f[0] += "#0"
 				}
 				if lm := letRe.FindStringSubmatch(strings.TrimSpace(f[1])); lm != nil {
-					e, err := parseSpecExpr(lm[2])
+					e, err := parseSpecExpr(lm[3])
 					if err != nil {
 						return fail(err)
 					}
 					if cur.BeforeLets == nil {
 						cur.BeforeLets = map[string][]Clause{}
 					}
-					cur.BeforeLets[f[0]] = append(cur.BeforeLets[f[0]], Clause{Name: lm[1], Text: lm[2], Expr: e})
+					cur.BeforeLets[f[0]] = append(cur.BeforeLets[f[0]], Clause{Name: lm[1], Index: lm[2], Text: lm[3], Expr: e})
 					continue
 				}
 				m := clauseRe.FindStringSubmatch(strings.TrimSpace(f[1]))
@@ -517,14 +518,14 @@ func (cs *ContractSet) loadContractFile(path, pkgPath string) error {
 					return fail(fmt.Errorf("bad at"))
 				}
 				if lm := letRe.FindStringSubmatch(strings.TrimSpace(f[1])); lm != nil {
-					e, err := parseSpecExpr(lm[2])
+					e, err := parseSpecExpr(lm[3])
 					if err != nil {
 						return fail(err)
 					}
 					if cur.AfterLets == nil {
 						cur.AfterLets = map[string][]Clause{}
 					}
-					cur.AfterLets[f[0]] = append(cur.AfterLets[f[0]], Clause{Name: lm[1], Text: lm[2], Expr: e})
+					cur.AfterLets[f[0]] = append(cur.AfterLets[f[0]], Clause{Name: lm[1], Index: lm[2], Text: lm[3], Expr: e})
 					continue
 				}
 				m := clauseRe.FindStringSubmatch(strings.TrimSpace(f[1]))
